@@ -66,6 +66,24 @@ CLAIMED = {
             'survive, once, in frequency order, attributes intact (all ~3.7k edge orderings).',
             'floats as reals; amplifier physics stubbed in the chain harness; 5 fixed channel positions there',
             'DESIGN.md §2 C07'),
+    'C11': ('symx',
+            'bounded symbolic execution of the real routing code (incl. networkx shortest paths) over meshes with symbolic fibre lengths; '
+            'z3 decides minimality against every admissible simple route; models replayed on the float code',
+            'For every include-list option (LOOSE/STRICT, unknown names, transceiver names, repeated endpoints) on 3-4 site meshes (5 '
+            'thorough) with symbolic link lengths: the route list is cleaned as documented, the returned route starts/ends at the right '
+            'transceivers, follows directed links, is loop-free, crosses the include nodes in order, and no admissible simple route is '
+            'shorter (all length orderings explored by forking, each obligation a linear-arithmetic z3 query); unsatisfiable STRICT => '
+            'NO_PATH_WITH_CONSTRAINT, unsatisfiable LOOSE => unconstrained optimum; reverse path visits the same sites reversed.',
+            'floats as reals; lengths in generic position (no exact ties); minimality up to 1 m; shapes listed in the evidence',
+            'DESIGN.md §2 C11'),
+    'C12': ('symx',
+            'bounded symbolic execution of the real compute_path_dsjctn over meshes with symbolic fibre lengths; oracle recomputed '
+            'from site sequences; brute-force existence for the completeness claim',
+            'Groups of 2 and 3 requests and two groups sharing a request on 3-4 site meshes: every returned combination is link-disjoint '
+            'in both directions and respects STRICT include nodes for every ordering of the candidate routes (symbolic lengths); a '
+            'DisjunctionError for a single pair only when no disjoint pair exists.',
+            'floats as reals; generic lengths; 9 request/group configurations listed in the evidence',
+            'DESIGN.md §2 C12'),
     'C13': ('symx',
             'bounded symbolic execution of the real receiver / propagate / mode-selection / verdict code with z3 (dB values through an '
             'invertible 10**x abstraction, round(.,2) modelled exactly over the reals+ints); models replayed on the float code',
